@@ -181,7 +181,8 @@ class Ctx:
         else:
             shutil.copy(REPO / "go.sum", h / "go.sum")
         # One binary per property: ./cmd/vhNN imports only internal/cNN (and what it imports).
-        target = "./cmd/vh" + self.prop[1:].lower()
+        # C07 -> ./cmd/vh07; extra (non-manifest) checks X03 -> ./cmd/vhx03.
+        target = "./cmd/vh" + (self.prop[1:] if self.prop.startswith("C") else self.prop).lower()
         if not (h / target).is_dir():
             target = "./cmd/vh"
         cmd.append(target)
